@@ -175,6 +175,31 @@ pub fn set_adversarial_hash(on: bool) {
     HASH_ADVERSARIAL.store(on, std::sync::atomic::Ordering::Relaxed);
 }
 
+// ---------------------------------------------------------------------------
+// fsync of a DIRECTORY (what makes the entry of a newly created file durable) is observed, not altered:
+// the disk model learns which directory was synced.
+// ---------------------------------------------------------------------------
+thread_local! {
+    pub static DIR_SYNC_HOOK: RefCell<Option<Box<dyn Fn(&std::path::Path)>>> = const { RefCell::new(None) };
+}
+#[no_mangle]
+pub unsafe extern "C" fn fsync(fd: libc::c_int) -> libc::c_int {
+    let active = SIM_ACTIVE.try_with(|a| a.get()).unwrap_or(false);
+    if active {
+        let mut st: libc::stat = std::mem::zeroed();
+        if libc::fstat(fd, &mut st) == 0 && (st.st_mode & libc::S_IFMT) == libc::S_IFDIR {
+            if let Ok(p) = std::fs::read_link(format!("/proc/self/fd/{fd}")) {
+                let _ = DIR_SYNC_HOOK.try_with(|h| {
+                    if let Some(f) = h.borrow().as_ref() {
+                        f(&p)
+                    }
+                });
+            }
+        }
+    }
+    libc::syscall(libc::SYS_fsync, fd) as libc::c_int
+}
+
 pub fn activate(entropy_seed: u64) {
     SIM_ACTIVE.with(|a| a.set(true));
     ENTROPY.with(|r| r.set(entropy_seed | 1));
